@@ -182,6 +182,26 @@ async def barrier_top(mpc, ctx):
     await mpc.shutdown()
 
 
+@program('no_barrier_shutdown', ms=(2, 3), expect=lambda m: [('c', 64)], tags=('barrier',))
+async def no_barrier_shutdown(mpc, ctx):
+    """Option --no-barrier: barrier() is a no-op, but shutdown() must still wait for the coroutines that are under way."""
+    await mpc.start()
+    saved = mpc.options.no_barrier
+    mpc.options.no_barrier = True
+    try:
+        secint = mpc.SecInt(8)
+        a = mpc.input(secint(2), senders=0)
+        c = a
+        for _ in range(5):
+            c = c * a                 # dependent multiplications, not awaited
+        f = mpc.output(c)
+        f.add_done_callback(lambda fut: ctx.out_unordered('c', fut.result()))
+        await mpc.barrier()           # returns at once under --no-barrier
+        await mpc.shutdown()
+    finally:
+        mpc.options.no_barrier = saved
+
+
 @program('barrier_nested', ms=(2, 3), expect=None, tags=('barrier',))
 async def barrier_nested(mpc, ctx):
     await mpc.start()
